@@ -1226,6 +1226,16 @@ impl<'a> Session<'a> {
                         let tx = &mut self.tx;
                         g!(tx.add_json_metadatum(&bn(*label), json));
                     }
+                    MetaSpec::Text(label, chars, bpc) => {
+                        let ch = match bpc {
+                            1 => "a",
+                            2 => "\u{e9}",
+                            _ => "\u{20ac}",
+                        };
+                        let json = format!("\"{}\"", ch.repeat(*chars as usize));
+                        let tx = &mut self.tx;
+                        g!(tx.add_json_metadatum(&bn(*label), json));
+                    }
                     MetaSpec::AuxScripts { native, plutus, prefer_alonzo } => {
                         need!(native.iter().chain(plutus.iter()).all(|s| self.script_ok(*s)));
                         let mut aux = self.tx.get_auxiliary_data().unwrap_or_else(csl::AuxiliaryData::new);
